@@ -17,22 +17,26 @@ import sys
 import traceback
 
 
-def set_partitions(n, k):
+def set_partitions(n, k, max_dev=None):
     """all partitions of range(n) into at most k blocks, as restricted-growth strings a[0..n-1]
-    (a[i] = block of chunk i; blocks numbered by first appearance = worker that takes it first)"""
-    def rec(i, a, m):
+    (a[i] = block of chunk i; blocks numbered by first appearance = worker that takes it first);
+    with max_dev only those with at most max_dev chunks outside block 0 (pruned during generation)"""
+    def rec(i, a, m, dev):
         if i == n:
             yield tuple(a)
             return
         for b in range(min(m + 1, k)):
+            d = dev + (1 if b != 0 else 0)
+            if max_dev is not None and d > max_dev:
+                continue
             a.append(b)
-            for x in rec(i + 1, a, max(m, b + 1)):
+            for x in rec(i + 1, a, max(m, b + 1), d):
                 yield x
             a.pop()
     if n == 0:
         yield ()
         return
-    for x in rec(0, [], 0):
+    for x in rec(0, [], 0, 0):
         yield x
 
 
@@ -205,7 +209,7 @@ class installed(object):
         _CURRENT['schedule'] = None
 
 
-def explore(run, max_deviations=None, cap=None):
+def explore(run, max_deviations=None, cap=None, full_if_chunks_le=8, big_call_deviations=2):
     """Stateless exploration of every schedule of a driver `run()` that performs map calls through the
     seam.  The first execution uses the default schedule (everything on worker 0) and discovers the
     call structure; then every combination of per-call partitions is enumerated (deviation-bounded if
@@ -215,7 +219,10 @@ def explore(run, max_deviations=None, cap=None):
         base = run()
     shape = [(nc, k) for (_, nc, k, _) in probe.calls]
     yield tuple(tuple([0] * nc) for nc, k in shape), base
-    per_call = [list(set_partitions(nc, k)) for nc, k in shape]
+    # complete enumeration for calls with few chunks, deviation-bounded generation (CHESS style) for large ones
+    per_call = [list(set_partitions(nc, k, max_deviations if (max_deviations is not None or nc <= full_if_chunks_le)
+                                    else big_call_deviations)) for nc, k in shape]
+    bounded = [nc for nc, k in shape if max_deviations is None and nc > full_if_chunks_le]
     count = 0
     for combo in itertools.product(*per_call):
         if all(deviations(a) == 0 for a in combo):
